@@ -8,7 +8,7 @@ from ..absint import Interp
 from ..model import AnalysisError, FuncInfo, dotted, norm, walk_no_nested
 from ..report import rule
 from ..shape import (Alt, Attr, CallV, Index, ListOf, Lit, LoopVar, Node, Param, Rep, Seq, Shaper, Star, V, alts, chain, is_lit, nodes, seq_items)
-from ..util import calls_named, cfg_of, is_const, is_name, key, kw, site_packages_source, strip_pre
+from ..util import allargs, calls_named, cfg_of, is_const, is_name, key, kw, site_packages_source, strip_pre
 
 GS = "graphql_schema_generators."
 NON_SDL = {"resolve", "subscribe", "is_type_of", "resolve_type", "serialize", "parse_value", "parse_literal", "out_name", "out_type",
@@ -151,12 +151,36 @@ def c16_r2(ctx):
     for fk, what in ((GS + "fields:generate_field_map", "fields"), (GS + "fields:generate_args", "args"), (GS + "fields:generate_enum_values", "values"),
                      (GS + "fields:generate_input_field_map", "input_fields"), (GS + "schema:generate_type_map", "type_map")):
         fi = ctx.repo.func(fk)
+        src = fi.node.args.args[0].arg
         loops = [n for n in walk_no_nested(fi.node) if isinstance(n, ast.For)]
-        good = len(loops) == 1 and norm(loops[0].iter) == f"{fi.node.args.args[0].arg}.items()" and isinstance(loops[0].target, ast.Tuple)
-        if good:
+        good = False
+        if len(loops) == 1 and norm(loops[0].iter) == f"{src}.items()" and isinstance(loops[0].target, ast.Tuple):
+            # loop form: for name, item in src.items(): d.keys.append(generate_constant(name)); d.values.append(f(item, ...))
             kn, vn = norm(loops[0].target.elts[0]), norm(loops[0].target.elts[1])
-            body = " ".join(norm(s) for s in loops[0].body)
-            good = f".keys.append(generate_constant({kn}))" in body and f".values.append(" in body and f"({vn}" in body
+            apps = [c for c in ast.walk(loops[0]) if isinstance(c, ast.Call) and isinstance(c.func, ast.Attribute) and c.func.attr == "append" and allargs(c)]
+            ks = [c for c in apps if norm(c.func.value).endswith(".keys")]
+            vs = [c for c in apps if norm(c.func.value).endswith(".values")]
+            good = len(ks) == 1 and len(vs) == 1 and isinstance(allargs(ks[0])[0], ast.Call) and dotted(allargs(ks[0])[0].func) == "generate_constant" \
+                and norm(allargs(allargs(ks[0])[0])[0]) == kn and any(isinstance(x, ast.Name) and x.id == vn for x in ast.walk(allargs(vs[0])[0]))
+        else:
+            # comprehension form: generate_dict(keys=[generate_constant(n) for n in src], values=[f(v, ...) for v in src.values()])
+            gd = [c for c in walk_no_nested(fi.node) if isinstance(c, ast.Call) and dotted(c.func) == "generate_dict" and isinstance(kw(c, "keys"), ast.ListComp) and isinstance(kw(c, "values"), ast.ListComp)]
+            if len(gd) == 1:
+                kc, vc = kw(gd[0], "keys"), kw(gd[0], "values")
+                env = {st.targets[0].id: st.value for st in walk_no_nested(fi.node) if isinstance(st, ast.Assign) and len(st.targets) == 1 and isinstance(st.targets[0], ast.Name)}
+                def same_source(a, b):
+                    ta, tb = norm(a), norm(b)
+                    base = ta[:-len(".values()")] if ta.endswith(".values()") else ta[:-len(".items()")] if ta.endswith(".items()") else ta
+                    return base == tb or base == tb[:-len(".items()")] if tb.endswith(".items()") else base == tb
+                ksrc = kc.generators[0].iter
+                vsrc = vc.generators[0].iter
+                root = norm(ksrc)
+                filt = env.get(root)
+                ok_src = root == src or (isinstance(filt, ast.DictComp) and norm(filt.generators[0].iter) == f"{src}.items()" and norm(filt.key) == norm(filt.generators[0].target.elts[0])
+                                         and norm(filt.value) == norm(filt.generators[0].target.elts[1]))
+                good = ok_src and len(kc.generators) == 1 and len(vc.generators) == 1 and not kc.generators[0].ifs and not vc.generators[0].ifs \
+                    and isinstance(kc.elt, ast.Call) and dotted(kc.elt.func) == "generate_constant" and norm(allargs(kc.elt)[0]) == norm(kc.generators[0].target) \
+                    and norm(vsrc) == f"{root}.values()" and any(isinstance(x, ast.Name) and x.id == norm(vc.generators[0].target) for x in ast.walk(vc.elt))
         ctx.check(good, key(fi, "entries"), f"{fi.qualname} does not emit one entry per item keyed by its GraphQL name", fi.loc(), okmsg=f"{fi.qualname}: one entry per item, keyed by name")
 
 
@@ -177,7 +201,7 @@ def c16_r3(ctx):
             "GraphQLUnionType": "generate_union_type", "GraphQLEnumType": "generate_enum_type", "GraphQLInputObjectType": "generate_input_object_type"}
     ctx.check(pairs == want, key(fi, "dispatch targets"), f"dispatch table is {pairs}", fi.loc(), okmsg="each class dispatches to its own generator")
     ft = repo.func(GS + "fields:generate_field_type")
-    tests = [norm(n.args[1]) for n in walk_no_nested(ft.node) if isinstance(n, ast.Call) and is_name(n.func, "isinstance") and len(n.args) == 2]
+    tests = [norm(allargs(n)[1]) for n in walk_no_nested(ft.node) if isinstance(n, ast.Call) and is_name(n.func, "isinstance") and len(allargs(n)) == 2]
     flat = " ".join(tests)
     good = all(k in flat for k in named + ["GraphQLList", "GraphQLNonNull"])
     ctx.check(good, key(ft, "kinds"), f"type references handle {tests}", ft.loc(), okmsg="type references: all named kinds, List and NonNull")
@@ -257,7 +281,7 @@ def c16_r5(ctx):
     ctx.check(st[0] == "const" and set(st[1]) == want, GS + "constants::STANDARD_TYPES", f"STANDARD_TYPES is {st}", "", okmsg="STANDARD_TYPES = built-in scalars + introspection types")
     gf = repo.func(GS + "schema:generate_graphql_schema_graphql_file")
     w = [c for c in walk_no_nested(gf.node) if isinstance(c, ast.Call) and isinstance(c.func, ast.Attribute) and c.func.attr == "write_text"]
-    good = len(w) == 1 and norm(w[0].args[0]) == "print_schema(schema)" and norm(w[0].func.value) == "Path(target_file_path)"
+    good = len(w) == 1 and norm(allargs(w[0])[0]) == "print_schema(schema)" and norm(w[0].func.value) == "Path(target_file_path)"
     ctx.check(good, key(gf, "sdl"), "the .graphql target is not print_schema(schema) written to the target path", gf.loc(), okmsg="SDL target = print_schema(schema)")
     pf = repo.func(GS + "schema:generate_graphql_schema_python_file")
     good = "ast_to_str(module)" in norm(pf.node) and "generate_schema_module(schema, type_map_name=type_map_name, schema_variable_name=schema_variable_name)" in norm(pf.node)
